@@ -7,6 +7,8 @@ matrices and states over any commutative semiring): the executable model of
 
 Tie to /repo on every run (exact, Gaussian-integer data, no tolerance):
   * the string builders of einsum_utils.py are called directly and compared with the model;
+  * the einsum / transpose semantics of the model (mini-numpy) is compared with numpy itself on
+    random label strings and permutations;
   * circuits of `gates.Unitary(M, *qubits, check_unitary=False)` (plain / controlled_by) and exact
     named gates on random ordered, non-adjacent placements are executed by the real numpy backend;
     `.state()` and `Circuit.unitary()` are compared inside Coq (vm_compute) with the model, with
@@ -348,7 +350,7 @@ def gen_sv_cases(run, rng):
     cases = []
     quick = run.tier != "thorough"
     # random deep circuits
-    nrand = 170 if quick else 900
+    nrand = 170 if quick else 2500
     for i in range(nrand):
         n = rng.choice([1, 2, 2, 3, 3, 3, 4, 4, 4, 5, 5])
         depth = rng.randint(1, 6)
@@ -414,7 +416,8 @@ def strings_check(run, rng):
             l, r = eu.apply_gate_density_matrix_string(qs, n)
             items.append((f"dms:{n}:{qs}", f"(let lr := apply_gate_density_matrix_string {cnats(qs)} {n}%nat in seqb (fst lr) {estr(l)} && seqb (snd lr) {estr(r)})"))
             l, r = eu.apply_gate_density_matrix_controlled_string(qs, n)
-            items.append((f"dmcs:{n}:{qs}", f"(let lr := apply_gate_density_matrix_controlled_string {cnats(qs)} {n}%nat in seqb (fst lr) {estr(l)} && seqb (snd lr) {estr(r)})"))
+            items.append((f"dmcs:{n}:{qs}", f"(let lr := apply_gate_density_matrix_controlled_string {cnats(qs)} {n}%nat in seqb (fst lr) {estr(l)} && seqb (snd lr) {estr(r)} && batch_ok (fst lr) && batch_ok (snd lr) "
+                          f"&& einsum_ok (tl (fst (fst (fst lr))), snd (fst (fst lr)), tl (snd (fst lr))))"))
     ctr = []
     for n in range(1, 7):
         for ts, cs in placements(n, 2):
@@ -437,6 +440,48 @@ def strings_check(run, rng):
         if not ok:
             run.find("strings:" + lab_, "einsum_utils string/order builder differs from the model", {"item": lab_}, concrete=False)
     run.notes["string_builder_cases"] = len(items)
+
+
+# ------------------------------------------------------------------ mini-numpy against numpy
+def numpy_check(run, rng):
+    """the einsum / transpose semantics of C01/Model.v against the real numpy, on random label strings"""
+    from qibo.config import EINSUM_CHARS as EC
+    items = []
+    nein = 60 if run.tier != "thorough" else 300
+    for i in range(nein):
+        la = [rng.randrange(6) for _ in range(rng.randint(1, 4))]
+        lb = [rng.randrange(6) for _ in range(rng.randint(1, 4))]
+        union = sorted(set(la + lb))
+        lo = rng.sample(union, rng.randint(0, len(union)))
+        a = [rand_zi(rng, 3, 0.1) for _ in range(2 ** len(la))]
+        b = [rand_zi(rng, 3, 0.1) for _ in range(2 ** len(lb))]
+        na = np.array([complex(x, y) for x, y in a]).reshape((2,) * len(la))
+        nb = np.array([complex(x, y) for x, y in b]).reshape((2,) * len(lb))
+        st = "".join(EC[l] for l in la) + "," + "".join(EC[l] for l in lb) + "->" + "".join(EC[l] for l in lo)
+        out = zvec(np.einsum(st, na, nb))
+        items.append((f"einsum:{st}:{i}",
+                      f"veqb (tvec {len(lo)}%nat (einsum2 Ziops (({cnats(la)}, {cnats(lb)}), {cnats(lo)}) "
+                      f"(vtens Ziops {cvec(a)}) (vtens Ziops {cvec(b)}))) {cvec(out)} "
+                      f"&& einsum_ok (({cnats(la)}, {cnats(lb)}), {cnats(lo)})"))
+    for i in range(30 if run.tier != "thorough" else 120):
+        m = rng.randint(1, 5)
+        order = list(range(m))
+        rng.shuffle(order)
+        a = [rand_zi(rng, 5, 0.0) for _ in range(2 ** m)]
+        na = np.array([complex(x, y) for x, y in a]).reshape((2,) * m)
+        out = zvec(np.transpose(na, order))
+        items.append((f"transpose:{order}:{i}",
+                      f"veqb (tvec {m}%nat (ttranspose {cnats(order)} (vtens Ziops {cvec(a)}))) {cvec(out)}"))
+    res, out = run.coq_bools(f"{run.prop}_numpy.v", HEADER, items)
+    if res is None:
+        run.find("coq-eval:numpy", "mini-numpy correspondence file does not compile", {"log": out[-800:]}, concrete=False)
+        return
+    for lab_, ok in res.items():
+        run.case(["numpy", lab_], nontrivial=True)
+        if not ok:
+            run.find("mini-numpy:" + lab_, "numpy differs from the einsum / transpose semantics of C01/Model.v (trusted base broken)",
+                     {"item": lab_}, concrete=False)
+    run.notes["mini_numpy_cases"] = len(items)
 
 
 # ------------------------------------------------------------------ malformed stream
@@ -620,6 +665,7 @@ def main(run):
                         "qulacs is outside the proof", "qubit ids are natural numbers (qibo also accepts negative ids through Python indexing)"]
     oblige_theorems(run, "C01/Props")
     strings_check(run, rng)
+    numpy_check(run, rng)
     cases = gen_sv_cases(run, rng)
     outs, good = [], []
     for case in cases:
